@@ -5,6 +5,7 @@ package adjRIBOut
 
 import (
 	"fmt"
+	"runtime/debug"
 	"sort"
 	"strings"
 
@@ -183,3 +184,8 @@ func zvoSortedKeys[V any](m map[string]V) []string {
 	sort.Strings(ks)
 	return ks
 }
+
+// zvoTune: the route package pre-sizes its global BGPPathA cache to 100000
+// entries, which every GC cycle has to scan; the harnesses allocate many small
+// short-lived objects, so let the heap grow further between cycles.
+func zvoTune() { debug.SetGCPercent(1500) }
